@@ -456,6 +456,11 @@ func (x *Run) intrinsic(fr *Frame, st *State, fn *ssa.Function, args []Val, site
 	case "CalledInIter", "CalledWithInIter":
 		// like Called / CalledWith, restricted to the events after the last loop marker
 		s, _ := x.litString(args[0].T)
+		need := 1 // "name@k": at least k+1 matching calls in this iteration
+		if at := strings.LastIndex(s, "@"); at > 0 && at == len(s)-2 && s[at+1] >= '0' && s[at+1] <= '9' {
+			need = int(s[at+1]-'0') + 1
+			s = s[:at]
+		}
 		start := 0
 		for i, e := range st.events {
 			if strings.HasPrefix(e.Name, "loop:") {
@@ -463,12 +468,17 @@ func (x *Run) intrinsic(fr *Frame, st *State, fn *ssa.Function, args []Val, site
 			}
 		}
 		var alts []string
+		seenN := 0
 		for _, e := range st.events[start:] {
 			if !evNameMatch(e.Name, s) {
 				continue
 			}
+			seenN++
 			if name == "CalledInIter" {
-				return single(st, Val{T: "true", S: SBool}), true
+				if seenN >= need {
+					return single(st, Val{T: "true", S: SBool}), true
+				}
+				continue
 			}
 			idx, _ := litInt(args[1].T)
 			if idx < len(e.Args) && e.Args[idx].S == args[2].S {
@@ -479,6 +489,12 @@ func (x *Run) intrinsic(fr *Frame, st *State, fn *ssa.Function, args []Val, site
 	case "IterArg", "IterRet":
 		// argument / result i of the last call matching s within the current loop iteration
 		sname, _ := x.litString(args[0].T)
+		// "name@k": the k-th matching call counted back from the last one
+		skip := 0
+		if at := strings.LastIndex(sname, "@"); at > 0 && at == len(sname)-2 && sname[at+1] >= '0' && sname[at+1] <= '9' {
+			skip = int(sname[at+1] - '0')
+			sname = sname[:at]
+		}
 		idx, _ := litInt(args[1].T)
 		start := 0
 		for i, e := range st.events {
@@ -490,6 +506,10 @@ func (x *Run) intrinsic(fr *Frame, st *State, fn *ssa.Function, args []Val, site
 		for i := len(st.events) - 1; i >= start; i-- {
 			e := st.events[i]
 			if !evNameMatch(e.Name, sname) {
+				continue
+			}
+			if skip > 0 {
+				skip--
 				continue
 			}
 			var r Val
